@@ -4,7 +4,7 @@ PROP = {
     "bin": "c18",
     "coq_targets": ["theories/IL/C18Check"],
     "n": {"quick": 1200, "thorough": 20000},
-    "theorems": ["forward_spec", "backward_spec", "fwd_bwd_converse", "forward_total", "backward_total", "locations_complete", "locations_nodup", "locations_valid", "forward_closure_eq_paths", "apply_from_id", "apply_from_id_same", "migrate_id", "from_address_complete", "from_address_sound"],
+    "theorems": ["forward_spec", "backward_spec", "fwd_bwd_converse", "forward_total", "backward_total", "locations_complete", "locations_nodup", "locations_valid", "forward_closure_eq_paths", "forward_closure_eq_graph_reachable", "breach_graph_reachable", "apply_from_id", "apply_from_id_same", "migrate_id", "from_address_complete", "from_address_sound"],
     "rule": "one program per case from one xoshiro256** stream per (seed,index): 1-3 functions from ilgen::gen_function "
             "(empty blocks, self-loops, multi-in/out blocks, unreachable blocks) at interleaved addresses, then instructions removed "
             "(non-contiguous index fields), instructions re-addressed (duplicates within and across functions, no address), "
@@ -13,6 +13,6 @@ PROP = {
     "assumptions": ["functions satisfy cfg_inv (IL/Func.v; established for every ControlFlowGraph history by C15) - re-checked on every generated case",
                     "Program keeps key = Function::index (prog_inv) - re-checked on every generated case"],
     "partial": [],
-    "level_text": "Unbounded Coq theorems [U] about the Gallina model of lib/il/location.rs + Function::locations under cfg_inv (C15's invariant): forward/backward are the one-step relation of the static structure and converse to each other, total and closed on valid locations; locations() enumerates every instruction / empty block / edge exactly once; the forward closure of the entry location = locations on edge paths from the entry block; apply(from l) and migrate are the identity on an equal program; from_address is complete and sound. The model is tied to the Rust code differentially in the kernel on generated programs (model = observed), and the observed values are checked against an independent relational oracle (converse, exactly-once enumeration, closure = reachability, round trip, address look-up).",
+    "level_text": "Unbounded Coq theorems [U] about the Gallina model of lib/il/location.rs + Function::locations under cfg_inv (C15's invariant): forward/backward are the one-step relation of the static structure and converse to each other, total and closed on valid locations; locations() enumerates every instruction / empty block / edge exactly once; the forward closure of the entry location = locations on edge paths from the entry block = locations of the blocks in the graph library's reachable_vertices(entry) (via C11's reachable_vertices_correct and C15's refinement); apply(from l) and migrate are the identity on an equal program; from_address is complete and sound. The model is tied to the Rust code differentially in the kernel on generated programs (model = observed), and the observed values are checked against an independent relational oracle (converse, exactly-once enumeration, closure = reachability, round trip, address look-up).",
     "level_note": "Trusted: Coq kernel + vm_compute; the harness/pretty-printer; the model (IL/Loc.v) is hand-written and tied to the code differentially, not by translation.",
 }
